@@ -161,6 +161,11 @@ class RealRecording(object):
             mtscomp.compress(raw, d / 'rec.cbin', d / 'rec.ch', sample_rate=RATE, n_channels=self.nc,
                              dtype=self.dtype, chunk_duration=cd, n_threads=kw.get('n_threads', 1),
                              check_after_compress=False, quiet=True)
+            if 'n_threads' in kw:
+                # the reader's batch size is its own thread count (phylib uses cpu_count() // 2)
+                r = mtscomp.Reader(n_threads=kw['n_threads'])
+                r.open(d / 'rec.cbin')
+                return tr.get_ephys_reader(r)
             return tr.get_ephys_reader(d / 'rec.cbin')
         raise ValueError(b)
 
